@@ -166,7 +166,7 @@ pub fn gen_conv(rng: &mut Rng, rep: &mut Report) -> Conv {
             82..=86 => {
                 rep.counters.class("FieldList -> builtin".into());
                 let al = rng.range(0, 12) as usize;
-                cv.push(MCmd::FieldList(rng.ascii(al)), None)
+                cv.push(MCmd::FieldList(if rng.bool() { rng.ascii(al) } else { field_list_arg(rng) }), None)
             }
             87..=93 => {
                 rep.counters.class("Ping -> builtin".into());
